@@ -237,6 +237,33 @@ def run_case(desc):
         same_session = [(o, proj2.open_job(o).id) for o, _ in others]
         ids.append(proj2.open_job(v).id)
     others = others + same_session
+    # the state point setter and update_statepoint: the id, the cached state point and what later sessions
+    # read from the persistent cache must describe the assigned value, not the caller's (later mutated) object
+    with scratch_dir("c01c") as d3:
+        proj3 = signac.init_project(path=d3)
+        j0 = proj3.open_job({"zz_seed": 0}).init()
+        caller2 = reorder(v, rng)
+        j0.statepoint = caller2
+        ids.append(j0.id); spell["setter"] = j0.id
+        mutate_in_place(caller2)
+        jx = proj3.open_job(id=j0.id)
+        ids.append(calc_id(dict(jx.cached_statepoint))); spell["setter cached (caller mutated)"] = ids[-1]
+        ids.append(calc_id(jx.statepoint()))
+        merged_pairs = []
+        if "zz_seed" not in v:
+            j1 = proj3.open_job({"zz_seed": 1}).init()
+            upd = reorder(v, rng)
+            merged = dict({"zz_seed": 1}, **v)
+            j1.update_statepoint(upd)
+            merged_pairs.append((merged, j1.id))
+            mutate_in_place(upd)
+            merged_pairs.append((merged, calc_id(proj3.open_job(id=j1.id).statepoint())))
+        proj3.update_cache()
+        p4 = signac.get_project(d3)
+        ids.append(calc_id(p4.open_job(id=j0.id).statepoint())); spell["setter, later session"] = ids[-1]
+        for m, i in list(merged_pairs[:1]):
+            merged_pairs.append((m, calc_id(p4.open_job(id=i).statepoint())))
+    others = others + merged_pairs
     coq = ("{| c1_val := %s; c1_ftab := %s; c1_ids := %s; c1_file := %s; c1_others := %s |}" % (
         coq_json(v), coq_ftab([v, file_val] + [o for o, _ in others]),
         coq_list([coq_str(i) for i in ids], "str"), coq_json(file_val),
